@@ -61,7 +61,7 @@ pub fn inputs_over(atoms: &[&str], maxn: usize) -> Vec<String> {
 '''
 
 ESC = ['\\n', '\\r', '\\t', '\\\\', '\\0', "\\'", '\\"', '\\x00', '\\x41', '\\x7F', '\\u{0}', '\\u{e9}', '\\u{E9}', '\\u{00e9}', '\\u{20AC}', '\\u{1F600}', '\\u{1_F600}', '\\u{10FFFF}', '\\u{10_FFFF}', '\\u{7f}']
-PAIR_ESC = ['\\n', '\\t', '\\\\', '\\"', '\\x41', '\\u{e9}', '\\u{1F600}', '\\0']
+PAIR_ESC = ['\\n', '\\r', '\\t', '\\\\', '\\"', '\\x41', '\\u{e9}', '\\u{1F600}', '\\0']
 
 
 def single_literals():
